@@ -257,6 +257,34 @@ func c12r2(r *R) {
 			}
 		}
 	})
+	// the same with the classification kept in a small struct: 500 stored into it when its code is still 0
+	eachInstr(er, func(ins ssa.Instruction) {
+		if st, ok := ins.(*ssa.Store); ok {
+			if v, ok := constInt(st.Val); ok && v == 500 {
+				for _, g := range guardsAt(st) {
+					if strings.HasSuffix(g, " == 0)") && !strings.HasPrefix(g, "!") {
+						fb = true
+					}
+				}
+			}
+		}
+	})
+	// ... or the classification loop moved into a helper that returns 500 when it falls out of the loop
+	eachInstr(er, func(ins ssa.Instruction) {
+		if ret, ok := ins.(*ssa.Return); ok && ret.Parent() != er && len(ret.Results) > 0 {
+			if v, ok := constInt(ret.Results[0]); ok && v == 500 {
+				matched := false
+				for _, g := range guardStrings(ret.Block()) {
+					if strings.HasSuffix(g, " != 0)") && !strings.HasPrefix(g, "!") || strings.HasSuffix(g, " == 0)") && strings.HasPrefix(g, "!") {
+						matched = true // returned under "a handler matched": not the fallback
+					}
+				}
+				if !matched {
+					fb = true
+				}
+			}
+		}
+	})
 	r.check(fb, "errorResponse#fallback-500", er.Pos(), "unclassified error ⇒ 500", "an unclassified error does not fall back to 500")
 	// relayed CONNECT rejection precedes the local error response
 	for _, recv := range []string{"proxyConn", "proxyHandler"} {
